@@ -45,6 +45,18 @@ def _exc_ids(exc):
     return [classify(e) for e in leaves]
 
 
+def _outside_loop(fn):
+    """Run a constructor in a plain thread: no running loop, no async library detected."""
+    import threading
+
+    box = []
+    th = threading.Thread(target=lambda: box.append(fn()))
+    th.start()
+    th.join()
+    assert box and "Adapter" in type(box[0]).__name__, box
+    return box[0]
+
+
 class Interp:
     def __init__(self, world, program):
         self.w = world
@@ -62,17 +74,20 @@ class Interp:
         for name, spec in self.prog.get("objects", {}).items():
             kind = spec[0]
             o = spec[1] if len(spec) > 1 else {}
+            # "adapter": the primitive is instantiated where no event loop runs (module level in
+            # user code) and binds lazily to the backend on first use
+            mk = _outside_loop if o.get("adapter") else (lambda f: f())
             if kind == "gate" or kind == "event":
-                objs[name] = anyio.Event()
+                objs[name] = mk(anyio.Event)
             elif kind == "lock":
-                objs[name] = anyio.Lock(fast_acquire=o.get("fast", False))
+                objs[name] = mk(lambda: anyio.Lock(fast_acquire=o.get("fast", False)))
             elif kind == "sem":
-                objs[name] = anyio.Semaphore(
+                objs[name] = mk(lambda: anyio.Semaphore(
                     o["value"], max_value=o.get("max"), fast_acquire=o.get("fast", False)
-                )
+                ))
             elif kind == "lim":
                 t = o["total"]
-                objs[name] = anyio.CapacityLimiter(math.inf if t == "inf" else t)
+                objs[name] = mk(lambda: anyio.CapacityLimiter(math.inf if t == "inf" else t))
             elif kind == "cond":
                 lk = objs[o["lock"]] if o.get("lock") else None
                 objs[name] = anyio.Condition(lk)
